@@ -21,6 +21,8 @@ def make_layout(rng, nens=None, mode=None):
     for e in rng.choice([['A', 'B', 'C'], ['A', 'B', 'C'], ['B450', 'sB450', 'B45'], ['A', 'A1', 'xA'], ['N2', 'N20', 'N200']])[:nens]:
         nrep = rng.choice([1, 1, 2, 3])
         names = ['%s|r%d' % (e, i + 1) for i in range(nrep)]
+        if nrep > 1 and rng.random() < 0.2:
+            names[0] = e      # a first replica called exactly like the ensemble
         layout[e] = {n: list(gen_idl(rng, rng.randint(12, 40), rng.choice(['contig', 'strided', 'irregular', 'gapped']))) for n in names}
     return layout
 
